@@ -44,6 +44,7 @@ IDEAL = {"VERIFY_CKSUM": "TRUE", "UNK_ERR_IS_ERR": "TRUE", "ROUTER_VERIFY_CKSUM"
 
 TABLE_INV = {
     "quote": "QuoteBounded QuoteIsPrefixLen QuoteMaximal",
+    "quote_dense": "QuoteBounded QuoteIsPrefixLen QuoteMaximal",
     "reply": "EchoAnswered NoReplyToErrorOrMalformed ErrorsNotified AtMostOneReply",
     "router": "RouterNeverAnswersError RouterEchoAnswered RouterEchoNoReplyToErrorOrMalformed",
 }
@@ -145,6 +146,11 @@ def run(c):
                expect_violation=True, coverage=False, timeout=900)
     self_check(c, rb, "QuoteBounded", "BROKENQ=TRUE (budget ignores the SCMP header)")
 
+    if thorough:
+        # every offender length 0..9216 for the header sizes the SNAP gateway produces (and the sciparse encoder on the same cells)
+        rd = c.tlc(SD, "MC_ScmpTables", cfg=cfg(c, "t_quote_dense.cfg", tables_cfg("quote_dense", "TRUE", IDEAL)), timeout=2400, coverage=False)
+        design_violations(c, rd, "MC_ScmpTables/quote_dense")
+        qcells = qcells + c.printed_json(rd, "CELL")
     inp = os.path.join(c.work, "quote_in.ndjson")
     outp = os.path.join(c.work, "quote_out.ndjson")
     write_ndjson(inp, qcells)
